@@ -212,3 +212,9 @@ Definition c10_rwhere (x : ccase) : list (nat * list (N * Z)) :=
           match List.filter (fun i => negb (gone_everywhere it i)) finals with [] => [] | l => [(n, l)] end)
          ++ go c s' (nth_world it 1) r (S n)
      end) (k_cfg x) (TSt ∅ ∅ ∅) ∅ (k_iters x) 0%nat.
+
+(** graceful stops with the trashbin on (C11): the trashbin life cycle of every object as the
+    C10 clauses demand it (no handler invoked out of turn or twice) and the healed final state.
+    Between a 'recycled' and the queued 'modified' that carries the differences the expected-state
+    local cache lags behind by design, so C07's "at all times" clause is not part of this oracle. *)
+Definition c11_trash_case (x : ccase) : bool := c10_case x && c07_healed_case x.
